@@ -12,6 +12,7 @@ import (
 	"github.com/cube2222/octosql/logical"
 	"github.com/cube2222/octosql/octosql"
 	"github.com/cube2222/octosql/physical"
+	"github.com/cube2222/octosql/plugins"
 
 	"verifharness/engine"
 	"verifharness/nd"
@@ -26,6 +27,12 @@ func init() {
 // evalCall typechecks, materialises and evaluates fn(c0..cn) where ci is a record variable of static type types[i]
 // holding args[i] - the same path a function call in a query takes.
 func evalCall(fn string, args []octosql.Value, types []octosql.Type) (stage, errText string, typ octosql.Type, val octosql.Value) {
+	return evalCallT(fn, args, types, false)
+}
+
+// evalCallT: with transport, the typechecked expression first crosses the plugin boundary (JSON + re-resolution of the functions), as a pushed-down
+// predicate does, and is materialised and evaluated on the other side.
+func evalCallT(fn string, args []octosql.Value, types []octosql.Type, transport bool) (stage, errText string, typ octosql.Type, val octosql.Value) {
 	defer func() {
 		if p := recover(); p != nil {
 			if stage == "" {
@@ -60,6 +67,18 @@ func evalCall(fn string, args []octosql.Value, types []octosql.Type) (stage, err
 	stage = "typecheck"
 	pe := le.Typecheck(context.Background(), env, lenv)
 	typ = pe.Type
+	if transport {
+		stage = "transport"
+		te, ok, err := plugins.VerifTransportExpression(pe)
+		if err != nil {
+			return "transport", err.Error(), typ, val
+		}
+		if !ok {
+			return "rejected", "the receiving side does not know the function", typ, val
+		}
+		pe = te
+		typ = pe.Type
+	}
 	stage = "materialize"
 	ee, err := pe.Materialize(context.Background(), env)
 	if err != nil {
@@ -78,6 +97,7 @@ func fnEval(args []string) error {
 	fs := flag.NewFlagSet("fn-eval", flag.ExitOnError)
 	in := fs.String("in", "", "")
 	out := fs.String("out", "", "")
+	transport := fs.Bool("transport", false, "also evaluate the expression after the plugin predicate transport")
 	fs.Parse(args)
 	w, err := nd.Create(*out)
 	if err != nil {
@@ -97,6 +117,10 @@ func fnEval(args []string) error {
 		}
 		stage, e, typ, v := evalCall(c["fn"].(string), av, ts)
 		res := map[string]interface{}{"id": c["id"], "stage": stage, "err": e, "type": vals.FromType(typ), "value": vals.FromValue(v)}
+		if *transport {
+			tstage, te, ttyp, tv := evalCallT(c["fn"].(string), av, ts, true)
+			res["t_stage"], res["t_err"], res["t_type"], res["t_value"] = tstage, te, vals.FromType(ttyp), vals.FromValue(tv)
+		}
 		if fn := c["fn"].(string); (fn == "~" || fn == "~*") && len(av) == 2 && av[0].TypeID == octosql.TypeIDString && av[1].TypeID == octosql.TypeIDString {
 			// the reference the statement names: Go's regexp on the pattern, and on the pattern with the (?i) flag
 			pat := av[1].Str
